@@ -31,6 +31,8 @@ type CallEnv struct {
 	MaxRunsPerNode int
 	Runaway        bool
 	FaultErr       error // the error injected by Fault == "err"
+	StatesMade     int   // number of state objects generated during this call
+	Mon            *StateMonitor
 	Hook           func(ctx context.Context, n *NodeSpec, tag string, in string) // optional extra instrumentation
 }
 
@@ -99,6 +101,14 @@ func body(ctx context.Context, n *NodeSpec, tag string, in string) (string, erro
 	if n.Gate && env.Ctl != nil {
 		env.Ctl.Wait(tag)
 	}
+	if n.PS {
+		if err := compose.ProcessState[*GState](ctx, func(ctx context.Context, st *GState) error {
+			critical(ctx, st, "ps:"+tag)
+			return nil
+		}); err != nil {
+			return "", err
+		}
+	}
 	switch n.Fault {
 	case "err":
 		return "", fmt.Errorf("wrapped: %w", &InjectedError{Node: tag})
@@ -111,7 +121,9 @@ func body(ctx context.Context, n *NodeSpec, tag string, in string) (string, erro
 	return F(tag, n.Digest, in), nil
 }
 
-// chunk splits s into k pieces (some possibly empty), deterministically.
+// Chunk splits s into k pieces (some possibly empty), deterministically.
+func Chunk(s string, k int) []string { return chunk(s, k) }
+
 func chunk(s string, k int) []string {
 	if k <= 1 {
 		return []string{s}
@@ -124,8 +136,8 @@ func chunk(s string, k int) []string {
 		if i == k {
 			cut = n
 		}
-		// make some chunks empty: every third boundary collapses
-		if i%3 == 2 && i != k {
+		// make some chunks empty; which one depends on the content
+		if (i+n)%3 == 2 && i != k {
 			cut = prev
 		}
 		out = append(out, s[prev:cut])
@@ -138,7 +150,7 @@ func chunk(s string, k int) []string {
 // defines it: strings join in order; maps concatenate key-wise, recursively.
 func ConcatAny(chunks []any) (any, error) {
 	if len(chunks) == 0 {
-		return nil, errors.New("empty stream")
+		return nil, errors.New("gkit: empty input stream")
 	}
 	if len(chunks) == 1 {
 		return chunks[0], nil
@@ -339,16 +351,19 @@ type BuildOpts struct {
 	BranchHook func(sp *Spec, b *Branch, path string, canon string)              // observes branch evaluations
 }
 
-func nodeOpts(sp *Spec, n *NodeSpec, path string, bo *BuildOpts) []compose.GraphAddNodeOpt {
+func nodeOpts(sp *Spec, n *NodeSpec, path string, bo *BuildOpts, skipOutputKey ...bool) []compose.GraphAddNodeOpt {
 	var opts []compose.GraphAddNodeOpt
 	if n.InputKey != "" {
 		opts = append(opts, compose.WithInputKey(n.InputKey))
 	}
-	if n.OutputKey != "" {
+	if n.OutputKey != "" && len(skipOutputKey) == 0 {
 		opts = append(opts, compose.WithOutputKey(n.OutputKey))
 	}
 	if n.Kind == "graph" {
 		opts = append(opts, compose.WithGraphCompileOptions(compileOpts(n.Sub, nil, false)...))
+	}
+	if n.Kind != "pass" {
+		opts = append(opts, handlerOptsFor(n, path+n.Key)...)
 	}
 	if bo != nil && bo.NodeOpts != nil {
 		opts = append(opts, bo.NodeOpts(sp, n, path)...)
@@ -380,10 +395,14 @@ func compileOpts(sp *Spec, bo *BuildOpts, top bool) []compose.GraphCompileOption
 }
 
 func newOpts(sp *Spec, path string, bo *BuildOpts) []compose.NewGraphOption {
-	if bo != nil && bo.NewOpts != nil {
-		return bo.NewOpts(sp, path)
+	var opts []compose.NewGraphOption
+	if sp.State {
+		opts = append(opts, compose.WithGenLocalState(newGState))
 	}
-	return nil
+	if bo != nil && bo.NewOpts != nil {
+		opts = append(opts, bo.NewOpts(sp, path)...)
+	}
+	return opts
 }
 
 func branchFor(sp *Spec, b *Branch, path string, bo *BuildOpts) *compose.GraphBranch {
@@ -566,9 +585,7 @@ func buildChain[I, O any](sp *Spec, path string, bo *BuildOpts) (*compose.Chain[
 			for i := range st.Nodes {
 				n := &st.Nodes[i]
 				// the parallel's output key is the node's OutputKey; do not pass WithOutputKey twice
-				nn := *n
-				nn.OutputKey = ""
-				opts := chainNodeOpts(sp, &nn, path, bo)
+				opts := nodeOpts(sp, n, path, bo, true)
 				switch n.Kind {
 				case "lambda":
 					p.AddLambda(n.OutputKey, lambdaFor(n, path+n.Key), opts...)
@@ -883,4 +900,57 @@ func (c *Controller) AwaitWaiting(n int, done <-chan struct{}) bool {
 		}
 		c.cond.Wait()
 	}
+}
+
+// ChunkInput splits an input value into k stream chunks whose concatenation is the value.
+func ChunkInput(in any, k int) []any {
+	if k < 1 {
+		k = 1
+	}
+	switch x := in.(type) {
+	case string:
+		var out []any
+		for _, c := range chunk(x, k) {
+			out = append(out, c)
+		}
+		return out
+	case map[string]any:
+		keys := make([]string, 0, len(x))
+		for kk := range x {
+			keys = append(keys, kk)
+		}
+		sort.Strings(keys)
+		if len(keys) == 0 {
+			return []any{x}
+		}
+		var out []any
+		for round := 0; round < k; round++ {
+			if round == 0 && k >= 2 && len(keys) >= 2 {
+				// one chunk carrying several keys at once
+				multi := map[string]any{}
+				for _, kk := range keys {
+					if s, ok := x[kk].(string); ok {
+						multi[kk] = chunk(s, k)[0]
+					} else {
+						multi[kk] = x[kk]
+					}
+				}
+				out = append(out, multi)
+				continue
+			}
+			for _, kk := range keys {
+				s, ok := x[kk].(string)
+				if !ok {
+					if round == 0 {
+						out = append(out, map[string]any{kk: x[kk]})
+					}
+					continue
+				}
+				parts := chunk(s, k)
+				out = append(out, map[string]any{kk: parts[round]})
+			}
+		}
+		return out
+	}
+	return []any{in}
 }
